@@ -409,6 +409,8 @@ def basic_agree(case, io, mo):
 def agree(case, io, mo):
     if not isinstance(io, dict) or "in" not in io:
         return False
+    if "re" in io and io["re"] != {k: io[k] for k in ("in", "count", "treq")}:
+        return False              # a second clean() changed membership, programs() or the type request
     if not basic_agree(case, io, mo):
         return False
     ok, dead, _ = phase2(case, io)
@@ -446,7 +448,8 @@ def describe(case, mo):
     k = case["kind"]
     progs = case["data"][-1]
     bits = mo.get("in", mo.get("in_c", []))
-    d = {"kind": k, "candidates": [[P.show_prog(p), b] for p, b in list(zip(progs, bits))[:12]]}
+    d = {"kind": k, "candidates": [[P.show_prog(p), b] for p, b in list(zip(progs, bits))[:12]],
+         "also_observed": "membership, programs() and type_request again after a second clean() (must be unchanged)"}
     if k == "build":
         d.update(show_spec(case["data"][0]))
         d["programs()"] = mo["count"]
@@ -538,6 +541,8 @@ def classify(case, io, mo):
         return None
     from lib import core
     k = case["kind"]
+    if "re" in io and io["re"] != {kk: io[kk] for kk in ("in", "count", "treq")}:
+        return None               # a second clean() changed something observable: no recorded defect does that
     if not basic_agree(case, io, mo):
         if k == "clean":
             return None
